@@ -150,6 +150,7 @@ type Chain struct {
 	PrivateMempool bool // some CheckTx calls go to one replica only
 	MempoolDirty   bool
 	PrivateChecks  int
+	offPool        []*shmsg.Message // off-pool configuration proposals sent so far (newest last)
 	Grafts         int // private CheckTx of (signature of a delivered transaction, other payload)
 	HasHot      bool // most transactions come from HotSender (long histories: per-sender state grows)
 	HotSender     int
@@ -684,6 +685,10 @@ func (c *Chain) genMessage(t *rapid.T, sender int) (*shmsg.Message, string) {
 			"result", "result", "result", "cfg", "cfg", "checkin", "seen",
 		}).Draw(t, "kindD")
 	}
+	if c.Focus == "configs" {
+		// configuration voting rounds, including proposals that are refused and proposed again
+		kind = rapid.SampledFrom([]string{"cfg", "cfg", "cfg", "cfg", "cfg", "cfg", "cfg", "cfg", "seen", "checkin", "result"}).Draw(t, "kindC")
+	}
 	if c.Focus == "validators" {
 		kind = rapid.SampledFrom([]string{
 			"cfg", "cfg", "cfg", "cfg", "seen", "seen", "seen", "seen", "seen", "checkin", "checkin", "checkin", "checkin", "checkin", "checkin",
@@ -698,12 +703,44 @@ func (c *Chain) genMessage(t *rapid.T, sender int) (*shmsg.Message, string) {
 	case "cfg":
 		c.refreshPool(t)
 		sel := rapid.IntRange(0, 9).Draw(t, "cfgSel")
-		if sel < 8 {
+		if sel < 8 && !(c.Focus == "configs" && sel >= 4) {
 			i := rapid.IntRange(0, len(c.pool)-1).Draw(t, "poolIdx")
 			return c.pool[i], fmt.Sprintf("cfg#%d(%s)", i, cfgShort(c.pool[i].GetBatchConfig()))
 		}
 		// an off-pool, possibly invalid configuration
+		if len(c.offPool) > 0 && (rapid.IntRange(0, 2).Draw(t, "offPoolAgain") == 0 || (c.Focus == "configs" && rapid.Bool().Draw(t, "offPoolAgainC"))) {
+			// the identical off-pool proposal once more (whoever the sender is this time): a second vote for it
+			i := rapid.IntRange(0, len(c.offPool)-1).Draw(t, "offPoolIdx")
+			return c.offPool[i], fmt.Sprintf("cfgX#%d(%s)", i, cfgShort(c.offPool[i].GetBatchConfig()))
+		}
 		last := c.M.Last()
+		if rapid.IntRange(0, 2).Draw(t, "singleDefect") == 0 {
+			// acceptable index and activation block, exactly one structural defect
+			ks := genSubset(t, "sdk", 1)
+			raw := addrBytes(ks)
+			th := uint64(rapid.IntRange(1, len(ks)).Draw(t, "sdT"))
+			defect := rapid.SampledFrom([]string{"no-keypers", "threshold-0", "threshold-n+1", "repeated-keyper", "short-address"}).Draw(t, "sdKind")
+			switch defect {
+			case "no-keypers":
+				raw, th = [][]byte{}, 0
+				if rapid.Bool().Draw(t, "sdNil") {
+					raw = nil
+				}
+			case "threshold-0":
+				th = 0
+			case "threshold-n+1":
+				th = uint64(len(ks) + 1)
+			case "repeated-keyper":
+				raw = append(raw, raw[0])
+			case "short-address":
+				raw[0] = raw[0][:19]
+			}
+			m := &shmsg.Message{Payload: &shmsg.Message_BatchConfig{BatchConfig: &shmsg.BatchConfig{
+				ActivationBlockNumber: last.Activation + uint64(rapid.IntRange(0, 1).Draw(t, "sdAct")), Keypers: raw, Threshold: th, KeyperConfigIndex: last.Index + 1,
+			}}}
+			c.rememberOffPool(m)
+			return m, "cfgX1(" + defect + " " + cfgShort(m.GetBatchConfig()) + ")"
+		}
 		ks := genSubset(t, "badk", 0)
 		raw := addrBytes(ks)
 		switch rapid.IntRange(0, 4).Draw(t, "cfgBad") {
@@ -732,6 +769,7 @@ func (c *Chain) genMessage(t *rapid.T, sender int) (*shmsg.Message, string) {
 		m := &shmsg.Message{Payload: &shmsg.Message_BatchConfig{BatchConfig: &shmsg.BatchConfig{
 			ActivationBlockNumber: act, Keypers: raw, Threshold: th, KeyperConfigIndex: idx,
 		}}}
+		c.rememberOffPool(m)
 		return m, "cfgX(" + cfgShort(m.GetBatchConfig()) + ")"
 	case "seen":
 		var acts []uint64
@@ -898,6 +936,13 @@ func (c *Chain) genSender(t *rapid.T) int {
 		return rapid.SampledFrom(mem).Draw(t, "member")
 	}
 	return rapid.IntRange(0, nKeyperKeys-1).Draw(t, "anyKey2")
+}
+
+func (c *Chain) rememberOffPool(m *shmsg.Message) {
+	c.offPool = append(c.offPool, m)
+	if len(c.offPool) > 6 {
+		c.offPool = c.offPool[1:]
+	}
 }
 
 // genTx draws one transaction (bytes + tag).
